@@ -13,7 +13,7 @@ impl Table {
     ensures tab_sym(*self, name@) is None ==> r is None, tab_sym(*self, name@) matches Some(s) ==> (r matches Some(sym) && *sym == s) { None }
 }
 #[derive(Clone, Copy)] pub struct Span { pub start: u32, pub end: u32 }
-pub struct Token { pub name: Ghost<Seq<char>>, pub hi: u32 }
+#[derive(Clone, Copy)] pub struct Token { pub name: Ghost<Seq<char>>, pub hi: u32 }
 impl Token {
   #[verifier::external_body] pub fn str(&self) -> (r: &str) ensures r@ == self.name@ { "" }
   #[verifier::external_body] pub fn end(&self) -> (r: u32) ensures r == self.hi { 0 }
@@ -26,6 +26,13 @@ pub uninterp spec fn expr_code(e: Expr) -> Seq<(SymbolicByteCode, u32)>;
 /// state and name slot of a module-level name; the instructions that store the top of the stack in it
 pub uninterp spec fn mod_var(name: Seq<char>) -> (SymbolState, u16);
 pub uninterp spec fn mod_define_code(name: Seq<char>, span: Span) -> Seq<(SymbolicByteCode, u32)>;
+impl Token { #[verifier::external_body] pub fn span(&self) -> (r: Span) ensures r == tok_span(*self) { unimplemented!() } }
+pub uninterp spec fn tok_span(t: Token) -> Span;
+#[derive(Clone, Copy)] pub enum FunKind { Fun, Method, StaticMethod, Initializer, Script }
+pub struct Fun { pub name: Option<Token>, pub id: u64, pub sp: Span }
+impl Fun { #[verifier::external_body] pub fn span(&self) -> (r: Span) ensures r == self.sp { unimplemented!() } }
+/// the instructions that build a function value (a child compiler, the Closure instruction: funcc unit)
+pub uninterp spec fn fun_code(id: u64) -> Seq<(SymbolicByteCode, u32)>;
 pub struct FunName { }
 impl FunName { #[verifier::external_body] pub fn name(&self) -> (r: &str) { "" } }
 #[verifier::external_body] pub fn verif_fmt() -> (r: &'static str) { "" }
@@ -75,6 +82,9 @@ impl Compiler {
   #[verifier::external_body] pub fn expr(&mut self, expr: &Expr)
     ensures final(self).locals == old(self).locals, final(self).local_tables == old(self).local_tables, final(self).scope_depth == old(self).scope_depth,
       final(self).code@ == old(self).code@ + expr_code(*expr) { }
+  #[verifier::external_body] pub fn function(&mut self, fun: &Fun, fun_kind: FunKind)
+    ensures final(self).locals == old(self).locals, final(self).local_tables == old(self).local_tables, final(self).scope_depth == old(self).scope_depth,
+      final(self).code@ == old(self).code@ + fun_code(fun.id) { }
   #[verifier::external_body] pub fn load_module_variable(&mut self, name: &str) -> (r: (SymbolState, u16))
     ensures final(self).locals == old(self).locals, final(self).local_tables == old(self).local_tables, final(self).scope_depth == old(self).scope_depth,
       final(self).code == old(self).code, final(self).errors == old(self).errors, r == mod_var(name@) { unimplemented!() }
